@@ -18,6 +18,7 @@ import Golib.HMap.Types
 import Golib.HMap.Multi
 import Golib.HMap.Enum
 import Golib.HMap.Proto
+import Golib.HMap.Wire
 import Driver.Common
 
 open HMap Drv HMap.Proto
@@ -29,6 +30,7 @@ structure Sess (K : Type) [DecidableEq K] where
   spec : S K Int
   conc : LMap K Int
   sv : Int → String          -- how a value of this type is printed
+  float : Bool := false      -- values travel as 4-byte float patterns in ToBytes / ToObject
 
 inductive St
   | none
@@ -125,7 +127,7 @@ def strHash : String → Option (BKey → Nat)
 
 def newSess [DecidableEq K] (t : TypeDesc) (isEmpty : K → Bool)
     (hash : K → Nat) (cap : Nat) (tbl : List (Nat × Nat)) : Sess K :=
-  { d := t.descOf isEmpty, hash := hash, thr := thrOf tbl, spec := {}, conc := LMap.new (thrOf tbl) cap, sv := showVal t }
+  { d := t.descOf isEmpty, hash := hash, thr := thrOf tbl, spec := {}, conc := LMap.new (thrOf tbl) cap, sv := showVal t, float := t.val == .float32 }
 
 def answer1 (st : St) (ws : List String) : St × String :=
   match ws with
@@ -152,8 +154,9 @@ def answer1 (st : St) (ws : List String) : St × String :=
 def copyInto (src : St) (dst : St) (_ : Unit) : St × String :=
   match dst, src with
   | .ints d, .ints s =>
+    -- Spec: every entry of the source, in order, is put (mode last); CodeModel: through the serialized form
     let sp := s.spec.ents.foldl (fun acc e => (S.step d.d acc (.put .last e.1 e.2)).1) d.spec
-    let cm := (s.conc.entries s.hash).foldl (fun acc e => (LMap.step d.hash d.thr d.d acc (.put .last e.1 e.2)).1) d.conc
+    let cm := LMap.toObject d.hash d.thr d.float d.d d.conc (LMap.toBytes s.hash s.float s.conc)
     (.ints { d with spec := sp, conc := cm }, "u")
   | .strs d, .strs s =>
     let sp := s.spec.ents.foldl (fun acc e => (S.step d.d acc (.put .last e.1 e.2)).1) d.spec
